@@ -56,7 +56,11 @@ def generate(repo):
     gates = re.findall(r"ClangAbi::Known\(Abi::(\w+)\)\s*if\s*!ctx\.options\(\)\.rust_features\(\)\.(\w+)\s*=>\s*\{\s*Err\(", ab)
     vgates = re.findall(r"ClangAbi::Known\(Abi::(\w+)\)\s*if\s*self\.is_variadic\(\)\s*=>\s*\{\s*Err\(", ab)
     n_err = len(re.findall(r"Err\(crate::codegen::error::Error::UnsupportedAbi", ab))
-    if n_err != len(gates) + len(vgates):
+    # calling conventions Rust has no name for: rejected (Err) or passed through to the callers (which panic on them)
+    unknown_rejected = len(re.findall(r"ClangAbi::Unknown\(\.\.\)\s*=>\s*\{\s*Err\(crate::codegen::error::Error::UnsupportedAbi", strip_comments(ab)))
+    if unknown_rejected > 1:
+        raise TranslateError("%s: FunctionSig::abi: several ClangAbi::Unknown arms" % REL)
+    if n_err != len(gates) + len(vgates) + unknown_rejected:
         raise TranslateError("%s: FunctionSig::abi: %d UnsupportedAbi arms but %d recognised" % (REL, n_err, len(gates) + len(vgates)))
     if not re.search(r"abi\s*=>\s*Ok\(abi\)", ab):
         raise TranslateError("%s: FunctionSig::abi: pass-through arm not found" % REL)
@@ -117,6 +121,9 @@ def generate(repo):
     for v in vgates:
         out.append("  | .%s => true" % v)
     out.append("  | _ => false\n")
+    out.append("/-- `FunctionSig::abi`: is `ClangAbi::Unknown` answered with `Err(UnsupportedAbi)` (true) or handed")
+    out.append("to the callers, which panic on it (false)? -/")
+    out.append("def abiUnknownRejected : Bool := %s\n" % ("true" if unknown_rejected else "false"))
     out.append("/-- `names_will_be_identical_after_mangling`: `(mangling_prefix, expect_suffix)` per known ABI;")
     out.append("`none` = the `Some(_) => return false` arm -/")
     out.append("def manglingShapeKnown : Abi → Option (Char × Bool)")
